@@ -98,7 +98,9 @@ func (fn *TrieTree) Set(k string, field unsafe.Pointer) bool {
 		c := *(*byte)(rt.IndexPtr(ks, byteTypeSize, i))
 		j := ascii2Int(c)
 		if int(j) >= len(fs) {
-			tmp := make([]TrieNode, j+1)
+			// the native twin of Get (native/map.c trie_get) only refuses j > len, so for j == len it reads the node
+			// behind the slice: keep one zeroed spare node there (its nil Leaves makes that lookup miss)
+			tmp := make([]TrieNode, j+1, int(j)+2)
 			copy(tmp, fs)
 			fs = tmp
 			fp.Index = tmp
